@@ -1114,5 +1114,7 @@ def run(ctx):
     circuit_search(ctx)
     independence_search(ctx)
     fresh_search(ctx)
+    from props import basis_meas
+    basis_meas.run(ctx, PROP, ['decompose'])
     ctx.trusted.append("the multi-controlled-X recursion is a hand model (QV/Model/XDecompose.lean) tied by exact gate-list equality with the real X.decompose for all m ≤ 7 (8 thorough), |free| ≤ m+1, permuted labels, both use_toffolis values, on every run")
     ctx.notes.append("per class with a decomposition: kernel obligations 'product of the real decompose() on symbolic parameters = phase • matrix' on ascending, descending, non-adjacent placements (and after a parameter update); numeric search over a parameter grid (0, ±π/2, ±π, 2π, …) × every placement in n ≤ 4 for decompose() and standard_decompositions(); controlled_by gates of every class; MCX exact unitaries through the real engine for m ≤ 7/8 with 0..m+1 free qubits; TOFFOLI.congruent; GeneralizedRBS up to 3+2 qubits; Circuit.decompose on random mixed circuits")
